@@ -196,6 +196,9 @@ def cmd_check(prop, tier):
     det = {'in_process_checked': 0, 'fresh_interpreter_checked': 0,
            'mismatches': 0}
     fid = {'checked': 0, 'mismatches': 0}
+    if not hasattr(eng, 'fidelity'):
+        fid['note'] = ('this engine has no real-disk replay; SimFS fidelity '
+                       'is validated by the C09/C10/C11 checks')
     harness_problem = None
     try:
         for mode, n in subruns:
